@@ -207,6 +207,16 @@ fn startup_part(rep: &Arc<Reporter>, args: &Args, hosts_path: &Path, main_cert: 
         ("key used as certificate", settings_toml(Some(&cred), "127.0.0.1:1443", PROTOS_H1, ""), host_entry("main_hosts", "k.test", main_cert.1, main_cert.1), None),
     ];
     let mut cases: Vec<(String, String, String, Option<bool>)> = cases.into_iter().map(|(n, a, b, c)| (n.to_string(), a, b, c)).collect();
+    // more listen-address / credentials combinations
+    {
+        let empty = dir.join("cred-empty.toml");
+        std::fs::write(&empty, "").unwrap();
+        cases.push(("public address, credentials file without any client".into(), settings_toml(Some(&empty), "0.0.0.0:1443", PROTOS_H1, ""), hosts_ok.clone(), Some(false)));
+        cases.push(("routable IPv6 address, no credentials".into(), settings_toml(None, "[2001:db8::5]:1443", PROTOS_H1, ""), hosts_ok.clone(), Some(false)));
+        cases.push(("private address 10.0.0.5, no credentials".into(), settings_toml(None, "10.0.0.5:1443", PROTOS_H1, ""), hosts_ok.clone(), None));
+        // (a file without a `client` array is itself refused by the loader: either outcome is documented behaviour)
+        cases.push(("loopback, credentials file without any client".into(), settings_toml(Some(&empty), "127.0.0.1:1443", PROTOS_H1, ""), hosts_ok.clone(), None));
+    }
     // every pair of host classes sharing a host name (i == j: twice within one class); control: four distinct names start
     {
         let classes = ["main_hosts", "ping_hosts", "speedtest_hosts", "reverse_proxy_hosts"];
@@ -269,6 +279,8 @@ fn binaries_part(rep: &Arc<Reporter>, args: &Args) -> Option<(PathBuf, (String, 
     for i in 0..n {
         let user = strings[(i * 7 + 3) % strings.len()].replace(':', "_").replace('\n', " ").replace('\0', "");
         let pass = strings[(i * 11 + 5) % strings.len()].replace('\0', "");
+        // the -c argument is <username>:<password>: only the FIRST colon separates them, passwords may contain more
+        let pass = match i % 6 { 1 => format!("{}:mid:tail", pass), 4 => format!(":{}", pass), _ => pass };
         if user.is_empty() || pass.is_empty() || user.starts_with('-') || user.len() > 200 || pass.len() > 200 { continue; }
         let dir = env::work_dir(&args.root, "c13").join(format!("wiz{}", i));
         let _ = std::fs::remove_dir_all(&dir);
